@@ -44,8 +44,12 @@ def structures(k, tag=''):
     rlo, rhi = refine_region((1, 1), (3, 2))
     m2 = Mesh('2d', 2, (6, 4), [l0, tile(rlo, rhi, [[4], []])])
     r = Ref('r' + tag, 2, ['density', 'temp'], m2.ncell0, m2.boxes, layout=[families.random_layout(rnd, 3, 2), families.random_layout(rnd, 2, 2)], lo=[0.0, 1.0], dx0=[0.25, 0.5])
-    cb = [tile((0, 0, 0), (3, 1, 1), [[2], [], []])]
-    chk = RefChk('c' + tag, (4, 2, 2), cb, nsp=2, ghost=1, layouts={s: [families.random_layout(rnd, 2, 2)] for s in ('state', 'gradp', 'I_R', 'divU', 'p')})
+    # three boxes (2, 2 and 4 cells long); the state data always sit in two files holding one and two boxes, so that results
+    # handed back in another order than the tasks meet rows of another length or other offsets
+    cb = [tile((0, 0, 0), (7, 1, 1), [[2, 4], [], []])]
+    clay = {s: [families.random_layout(rnd, 3, 2)] for s in ('state', 'gradp', 'I_R', 'divU', 'p')}
+    clay['state'] = [[(0, 0), (1, 0), (1, 1)] if k % 2 == 0 else [(1, 1), (0, 0), (1, 0)]]
+    chk = RefChk('c' + tag, (8, 2, 2), cb, nsp=2, ghost=1, layouts=clay)
     # one level of six boxes in one file: with one worker Pool.map ships them in chunks of two
     m6 = Mesh('3d6', 3, (6, 2, 2), [tile((0, 0, 0), (5, 1, 1), [[2, 4], [1], []])])
     p6 = Ref('s' + tag, 3, ['density', 'a', 'volFrac'], m6.ncell0, m6.boxes, layout=[families.random_layout(rnd, 6, 2)], lo=[-0.5, 1.25, 2.0], dx0=[0.5, 0.25, 0.125])
